@@ -31,6 +31,8 @@ type Ledger struct {
 	mu         sync.Mutex
 	Entries    []LedgerEntry
 	CommitActs map[string]int // tag -> executions
+	PreActs    map[string]int // pre-commit actions: tag -> executions
+	expPre     map[string]int
 	TxComplete map[string]int // tx id -> calls
 	Restores   int
 
@@ -43,7 +45,7 @@ type Ledger struct {
 }
 
 func NewLedger() *Ledger {
-	return &Ledger{CommitActs: map[string]int{}, TxComplete: map[string]int{}, expected: map[string]int{}, optional: map[string]int{},
+	return &Ledger{PreActs: map[string]int{}, expPre: map[string]int{}, CommitActs: map[string]int{}, TxComplete: map[string]int{}, expected: map[string]int{}, optional: map[string]int{},
 		expCommit: map[string]int{}, expTxDone: map[string]int{}, optTxDone: map[string]int{}}
 }
 
@@ -158,6 +160,25 @@ func (l *Ledger) Check() []Violation {
 			}
 			out = append(out, Violation{Props: props, Oracle: "ledger", Sig: "commit-action-" + kind,
 				Detail: fmt.Sprintf("commit action %s ran %d time(s), expected %d", t, l.CommitActs[t], l.expCommit[t])})
+		}
+	}
+	var pres []string
+	for t := range l.expPre {
+		pres = append(pres, t)
+	}
+	for t := range l.PreActs {
+		if _, ok := l.expPre[t]; !ok {
+			pres = append(pres, t) // ran although its attempt did not commit: tolerated (it may be what made it fail)
+			l.expPre[t] = l.PreActs[t]
+		}
+	}
+	sort.Strings(pres)
+	for _, t := range pres {
+		// a pre-commit action of a committed attempt ran exactly once before that commit (an action that is never run
+		// cannot fail the transaction it was registered to guard)
+		if l.PreActs[t] != l.expPre[t] {
+			out = append(out, Violation{Props: []string{"C07"}, Oracle: "ledger", Sig: "pre-commit-action-count",
+				Detail: fmt.Sprintf("pre-commit action %s of a committed transaction ran %d time(s), expected %d", t, l.PreActs[t], l.expPre[t])})
 		}
 	}
 	var txs []string
